@@ -87,6 +87,7 @@ RECURSIVE ChainsOf(_)
 ChainsOf(n) == IF n = 0 THEN {<<>>} ELSE LET c == ChainsOf(n - 1) IN c \cup {x \o p : x \in c, p \in Postfix}
 ChainKinds(zzdummy) == LET cs == ChainsOf(N) \ {<<>>}
               IN {<<"Ident">> \o c : c \in cs} \cup {<<"Not", "Ident">> \o c : c \in cs}
+                 \cup {<<"Lbracket", "Num", "Rbracket">> \o c : c \in cs} \cup {<<"Star">> \o c : c \in cs}     \* a bare index / wildcard first
                  \cup {<<"Ident", "Lparen", "Ident", "Rparen">> \o c : c \in ChainsOf(N - 1) \ {<<>>}}          \* a call as the primary
                  \cup {<<"Not", "Ident", "Lparen", "Ident", "Rparen">> \o c : c \in ChainsOf(N - 1) \ {<<>>}}   \* ... under "!"
                  \cup {<<"At", "Cmp", "Ident">> \o c : c \in ChainsOf(N - 1) \ {<<>>}}
@@ -158,7 +159,7 @@ WsCases(zzdummy) ==
 
 (* Unicode class probes: a character of a class that Unicode-aware predicates (is_numeric, is_alphabetic, is_whitespace) accept
    but the grammar does not, right after a character that starts a token; alone, continued, and inside the usual frames *)
-Probe == <<1635, 178, 189, 9312, 65297, 120783, 3047, 65313, 233, 1072, 160, 12288, 8232, 133, 8203, 65279, 127, 128, 769, 8255>>
+Probe == <<0, 1, 8, 11, 12, 27, 31, 1635, 178, 189, 9312, 65297, 120783, 3047, 65313, 233, 1072, 160, 12288, 8232, 133, 8203, 65279, 127, 128, 769, 8255>>
 Entry == <<45, 49, 48, 97, 95, 34, 39, 96, 38, 124, 60, 61, 33, 91, 46, 64, 32, 42, 58, 44>>
 Frames == << <<<<>>, <<>>>>, <<<<64, 91>>, <<93>>>>, <<<<97, 91>>, <<58, 93>>>>, <<<<97, 91, 58>>, <<93>>>>,
              <<<<97, 91, 63, 98, 32, 61, 61, 32>>, <<93>>>>, <<<<97, 46>>, <<>>>> >>
